@@ -74,6 +74,11 @@ Field(i, j) == /\ Can(1) /\ IsC(i) /\ Free(i, j)
 GoCtx(i, j) == /\ Can(1) /\ IsC(i) /\ Free(i, j)
                /\ slot' = Use(i, j, [slot[i] EXCEPT !.used = FALSE, !.g.goctx = nc + 1])
                /\ nc' = nc + 1 /\ UNCHANGED <<mem, nf, nh>> /\ Step("GoCtx", i, j, nc + 1)
+\* c2 := c.Reset(): a fresh, empty context array; hooks, level, Go context carried over
+CtxReset(i, j) == /\ Can(1) /\ IsC(i) /\ Free(i, j)
+                  /\ mem' = Append(mem, Pad(<<>>, Cap))
+                  /\ slot' = Use(i, j, [slot[i] EXCEPT !.arr = Len(mem) + 1, !.len = 0, !.used = FALSE, !.g.fields = <<>>])
+                  /\ UNCHANGED <<nf, nh, nc>> /\ Step("CtxReset", i, j, 0)
 \* l2 := c.Logger()
 ToLogger(i, j) == /\ Can(1) /\ IsC(i) /\ Free(i, j)
                   /\ slot' = Use(i, j, [slot[i] EXCEPT !.kind = "L", !.fresh = TRUE, !.used = FALSE])
@@ -106,7 +111,7 @@ Emit(i) == /\ Can(1) /\ IsL(i) /\ UNCHANGED <<slot, mem, nf, nh, nc>>
                                     goctx |-> slot[i].g.goctx, level |-> slot[i].g.level])
 
 Next == \E i, j \in 1..S :
-          \/ With(i, j) \/ Field(i, j) \/ GoCtx(i, j) \/ ToLogger(i, j) \/ Hook(i, j) \/ Output(i, j)
+          \/ With(i, j) \/ Field(i, j) \/ GoCtx(i, j) \/ CtxReset(i, j) \/ ToLogger(i, j) \/ Hook(i, j) \/ Output(i, j)
           \/ (\E x \in {1, 2} : Level(i, j, x)) \/ Update(i) \/ Drop(i) \/ Emit(i)
 Spec == Init /\ [][Next]_vars
 View == <<slot, mem, nf, nh, nc, Len(prog)>>
